@@ -1417,6 +1417,17 @@ class Normalizer:
                 if isinstance(n, (ast.Assign, ast.AnnAssign)) and getattr(n, 'value', None) is not None:
                     fresh_val = isinstance(n.value, (ast.List, ast.ListComp, ast.Dict, ast.Set, ast.Tuple, ast.DictComp, ast.SetComp, ast.BinOp)) or (
                         isinstance(n.value, ast.Call) and isinstance(n.value.func, ast.Name) and n.value.func.id in ('list', 'sorted', 'set', 'dict', 'tuple'))
+                    if not fresh_val and isinstance(n.value, ast.Call):
+                        # a helper every return of which hands out a list it has just built
+                        try:
+                            r_ = self.resolve_callee(n.value, fi)
+                        except Exception:
+                            r_ = None
+                        if r_ is not None:
+                            rets_ = [x_ for x_ in walk_local(r_[0].node) if isinstance(x_, ast.Return)]
+                            fresh_val = bool(rets_) and all(
+                                isinstance(x_.value, (ast.List, ast.ListComp)) or (isinstance(x_.value, ast.Call) and isinstance(x_.value.func, ast.Name)
+                                                                                  and x_.value.func.id in ('list', 'sorted')) for x_ in rets_)
                     if not fresh_val:
                         for t in (n.targets if isinstance(n, ast.Assign) else [n.target]):
                             for x in ast.walk(t):
